@@ -177,6 +177,12 @@ func TestExhaustiveWorkPanics(t *testing.T) {
 		stats.Class("no_report_channel_installed")
 		judge(t, sc)
 		n++
+		// a report channel without buffer and a receiver waiting on it: one panic, nothing else to report
+		sc = workScenario(mods, kind, "error", "finish", 0, nil)
+		sc.UnbufferedReports = true
+		stats.Class("unbuffered_report_channel_with_waiting_receiver")
+		judge(t, sc)
+		n++
 	}
 	for _, pk := range modsim.PanicKinds {
 		for _, reenable := range []bool{false, true} {
